@@ -453,7 +453,7 @@ def _run_scenarios(tier, seed, repo_root, outdir, key):
     p = subprocess.run(['/venv/bin/python', os.path.join(here, 'scenario.py'), str(seed), str(n), out], capture_output=True, text=True, env=env, cwd=repo_root, timeout=3000)
     if not os.path.exists(out): raise RuntimeError('scenario runner failed: ' + (p.stderr or p.stdout)[-2000:])
     r = json.load(open(out))
-    return dict(evaluations=r['clients'], failure=r[key],
+    return dict(evaluations=r['clients'], failure=r[key], known=(r.get('known', {}) if key == 'failure_C16' else {}),
                 label='%d client populations (%d acquire requests; %d served, %d told about a connect error) on the real Pool under a virtual-time scheduler: random arrival / hold / discard / '
                       'connect + disconnect latency and failures, 1-6 databases, max_capacity 1-6 (bounded)' % (r['scenarios'], r['clients'], r['served'], r['reported_failures']),
                 clause='C15: open+opening <= max, exclusive lending of open connections of the right database, usage accounting;  C16: every acquire completes at quiescence')
